@@ -174,6 +174,7 @@ func fatJobs(c *core.Ctx, pl *fatPlan) []fatJob {
 				n = 5
 			}
 			jobs = append(jobs, fatJob{cfg, fatFillCycles(n), "fill-cycles"})
+			jobs = append(jobs, fatJob{cfg, fatFullScript(), "full-volume"})
 		}
 		if cfg.Preload <= 1<<20 {
 			jobs = append(jobs, fatJob{cfg, fatHeldScript(), "held-handles"})
@@ -186,7 +187,7 @@ func fatJobs(c *core.Ctx, pl *fatPlan) []fatJob {
 	if len(jobs) > budget {
 		var rest, deep []fatJob
 		for _, j := range jobs {
-			if j.label == "bfs-depth-3" {
+			if j.label == "bfs-depth-3" || j.label == "walk" {
 				deep = append(deep, j)
 			} else {
 				rest = append(rest, j)
@@ -206,8 +207,8 @@ func fatJobs(c *core.Ctx, pl *fatPlan) []fatJob {
 				rest = append(rest, j)
 			}
 		}
-		c.Extra["bfs_depth3_sampled_1_in"] = stride
-		c.Extra["bfs_depth3_generated_jobs"] = len(deep)
+		c.Extra["bfs_depth3_and_walks_sampled_1_in"] = stride
+		c.Extra["bfs_depth3_and_walk_jobs_generated"] = len(deep)
 		jobs = rest
 	}
 	return jobs
